@@ -120,12 +120,18 @@ def check_case(ctx, cs):
             if U_[0] < u0 < U_[-1] and any(abs(k - u0) < 1e-15 for k in U_) and all(not (u0 - 2.0 ** -19 < k < u0) for k in U_):
                 def near_left():
                     ob = build(sh)
-                    return ob.derivatives(u0 - 2.0 ** -40, order=order), ob.derivatives(u0 - 2.0 ** -20, order=order)
+                    return ob.derivatives(u0 - 2.0 ** -40, order=order + 1), ob.derivatives(u0 - 2.0 ** -20, order=order + 1)
                 ok, r_ = _try(ctx, cname + ".derivatives", tg + ["just_left_of_knot"], small, near_left)
                 if ok:
-                    sc_ = max(1.0, max(abs(x) for row in r_[1] for x in row))
-                    if any(abs(a_ - b_) > 1e-3 * sc_ for ra, rb in zip(r_[0], r_[1]) for a_, b_ in zip(ra, rb)):
-                        ctx.violate(cname + ".derivatives", tg + ["just_left_of_knot"], small, {"at_knot_minus_2^-40": r_[0][-1], "at_knot_minus_2^-20": r_[1][-1]})
+                    # mean value theorem on the left span: |D_k(a) - D_k(b)| <= |a - b| max|D_(k+1)|; the next order, taken from the same
+                    # call, serves as the bound (with a factor 4 for its own variation over the 2^-20 interval)
+                    for k_ in range(order + 1):
+                        lip = max(abs(x) for x in r_[1][k_ + 1]) if k_ + 1 < len(r_[1]) else 0.0
+                        lip = max(lip, max(abs(x) for x in r_[0][k_ + 1]) if k_ + 1 < len(r_[0]) else 0.0)
+                        tol_ = 4.0 * 2.0 ** -20 * lip + 1e-9 * max(1.0, max(abs(x) for x in r_[1][k_]))
+                        if any(abs(a_ - b_) > tol_ for a_, b_ in zip(r_[0][k_], r_[1][k_])):
+                            ctx.violate(cname + ".derivatives", tg + ["just_left_of_knot", "k=%d" % k_], small, {"at_knot_minus_2^-40": r_[0][k_], "at_knot_minus_2^-20": r_[1][k_], "bound": tol_})
+                            break
         # the documented span-search option: the derivatives (right-hand ones at a knot) are the same with the bisection search
         from geomdl import helpers as _helpers
         ok, objb = _try(ctx, cname + ".build", tg, small, lambda: build(sh, span_func=_helpers.find_span_binsearch))
